@@ -449,4 +449,69 @@ example : (run (lit "wpull") (initSt [⟨1, 0, lit "/a", .idle, none⟩, ⟨2, 0
       (fun s => (s.log, s.items.map (·.pc))) =
     some ([.robots 0 1, .robots 0 2, .loaded 0, .page 1 0, .loaded 0], [.requested, .denied]) := by decide
 
+/-! ### nofollow -/
+
+theorem processElements_fst (robots : Bool) (es : List Elem) :
+    (processElements robots es).1 = allLinks es := by
+  induction es with
+  | nil => rfl
+  | cons e es ih => simp [processElements, allLinks, List.flatMap_cons] at *; simpa [allLinks] using ih
+
+theorem processElements_snd (robots : Bool) (es : List Elem) :
+    (processElements robots es).2 = (robots && es.any (·.nofollow)) := by
+  induction es with
+  | nil => simp [processElements]
+  | cons e es ih =>
+    simp only [processElements, List.any_cons, ih]
+    cases robots <;> simp
+
+theorem scrapeLinks_eq (robots : Bool) (es : List Elem) :
+    scrapeLinks robots es =
+      if robots && es.any (·.nofollow) then (allLinks es).filter (fun c => !c.linked) else allLinks es := by
+  unfold scrapeLinks
+  rw [← processElements_fst robots es, ← processElements_snd robots es]
+
+/-- **C20 (nofollow)** With robots checking on, a page that declares `nofollow` ANYWHERE in the document
+(before or after the links, once or several times) yields no context that would be followed as a link. -/
+theorem nofollow_drops_every_link (es : List Elem) (h : ∃ e ∈ es, e.nofollow = true) :
+    ∀ c ∈ scrapeLinks true es, c.linked = false := by
+  intro c hc
+  have hany : es.any (·.nofollow) = true := by
+    obtain ⟨e, he, hn⟩ := h
+    exact List.any_eq_true.mpr ⟨e, he, hn⟩
+  rw [scrapeLinks_eq] at hc
+  simp only [Bool.true_and, hany, if_true, List.mem_filter] at hc
+  simpa using hc.2
+
+/-- ... and its page requisites are all kept, in document order -/
+theorem nofollow_keeps_requisites (robots : Bool) (es : List Elem) :
+    (scrapeLinks robots es).filter (fun c => !c.linked) = (allLinks es).filter (fun c => !c.linked) := by
+  rw [scrapeLinks_eq]
+  split
+  · simp [List.filter_filter]
+  · rfl
+
+/-- without the directive, or with robots checking off, nothing is dropped -/
+theorem no_directive_keeps_all (robots : Bool) (es : List Elem)
+    (h : robots = false ∨ ∀ e ∈ es, e.nofollow = false) : scrapeLinks robots es = allLinks es := by
+  rw [scrapeLinks_eq]
+  have : (robots && es.any (·.nofollow)) = false := by
+    rcases h with h | h
+    · simp [h]
+    · have : es.any (·.nofollow) = false := by
+        rw [List.any_eq_false]
+        intro e he; simp [h e he]
+      simp [this]
+  simp [this]
+
+/-- the position of the directive is irrelevant -/
+theorem nofollow_position_irrelevant (robots : Bool) (a b : List Elem) (m : Elem) (hm : m.links = []) :
+    scrapeLinks robots (a ++ m :: b) = scrapeLinks robots (m :: a ++ b) := by
+  simp only [scrapeLinks_eq, allLinks, List.flatMap_append, List.flatMap_cons, hm, List.nil_append,
+    List.any_append, List.any_cons, List.cons_append]
+  cases robots <;> cases m.nofollow <;> simp [Bool.or_comm]
+
+example : scrapeLinks true [⟨false, [⟨1, false, true⟩, ⟨2, true, false⟩]⟩, ⟨true, []⟩] = [⟨2, true, false⟩] := by decide
+example : scrapeLinks false [⟨false, [⟨1, false, true⟩]⟩, ⟨true, []⟩] = [⟨1, false, true⟩] := by decide
+
 end Wpull.Robots
